@@ -210,11 +210,15 @@ func checkIndex(c *enum.Ctx, k kase) {
 		fail("KmerFrequencies/after-build", "still reported after Build")
 	}
 	nwords := 1 << (2 * uint(k.K))
+	kept := map[int][]int{} // results the caller holds on to while it asks for more
 	query := func(w int) {
 		got, err := ki.KmerPositions(kmerindex.Kmer(w))
 		if err != nil {
 			fail("KmerPositions/error", "KmerPositions(%s) = %v", wordString(w, k.K, k.RNA), err)
 			return
+		}
+		if len(got) > 0 {
+			kept[w] = got
 		}
 		if fmt.Sprint(sorted(got)) != fmt.Sprint(byWord[w]) && !(len(got) == 0 && len(byWord[w]) == 0) {
 			fail("KmerPositions", "positions of %s in %q (k=%d): %v, it occurs at %v", wordString(w, k.K, k.RNA), k.Seq, k.K, got, byWord[w])
@@ -239,6 +243,12 @@ func checkIndex(c *enum.Ctx, k kase) {
 		}
 		query(0)
 		query(nwords - 1)
+	}
+	for w, got := range kept {
+		if fmt.Sprint(sorted(append([]int{}, got...))) != fmt.Sprint(byWord[w]) {
+			fail("KmerPositions/result-changed-by-a-later-call", "the positions of %s in %q, held while other words were looked up, now read %v (it occurs at %v)", wordString(w, k.K, k.RNA), k.Seq, got, byWord[w])
+			break
+		}
 	}
 	if _, err := ki.KmerPositions(kmerindex.Kmer(nwords)); err == nil {
 		fail("KmerPositions/out-of-range", "no error for a k-mer value beyond 4^k-1")
